@@ -657,3 +657,149 @@ class Mutator:
             return kind, ast.unparse(tree) + "\n"
         except Exception:  # noqa: BLE001
             return None
+
+
+# ---------------------------------------------------------------------------------------------- typed-entity programs
+class TypedEntityGen:
+    """programs whose diagnostic has to PRINT the type of a generic function / generic struct with interleaved comptime,
+    const and type parameters: a random signature (type variables, `@comptime` arguments, nat/const variables, arrays,
+    callables, generic structs, in every order; old-style type variables or PEP 695 syntax; defined or declared) and one
+    misuse of the entity in `main` (arity, argument type at some position, value of the wrong type, type application,
+    higher-order use, operators, unknown comptime argument, overloads, struct construction / annotation / field)"""
+
+    HEAD = (
+        "from collections.abc import Callable\nfrom typing import Generic\nfrom guppylang import guppy\n"
+        "from guppylang.std.builtins import array, owned, comptime, nat\nfrom guppylang.std.quantum import qubit, discard\n"
+        "T = guppy.type_var('T')\nU = guppy.type_var('U')\nL = guppy.type_var('L', copyable=False, droppable=False)\n"
+        "N = guppy.nat_var('N')\nM = guppy.nat_var('M')\nB = guppy.const_var('B', 'bool')\nF = guppy.const_var('F', 'float')\n"
+        "@guppy.struct\nclass S(Generic[T, N, B]):\n    x: T\n    xs: array[int, N]\n"
+        "@guppy.struct\nclass R(Generic[N, T, F, U]):\n    t: T\n    u: U\n"
+        "@guppy.declare\ndef apply(f: Callable[[T], U], x: T) -> U: ...\n"
+        "@guppy.declare\ndef ident(x: T) -> T: ...\n"
+    )
+    # (annotation, a correct argument expression, uses type params)
+    SLOTS = [
+        ("T", "1"), ("U", "2.5"), ("T", "True"), ("nat @comptime", "3"), ("int @comptime", "-4"), ("bool @comptime", "True"),
+        ("float @comptime", "1.5"), ("array[T, N]", "array(1, 2)"), ("array[int, N]", "array(1, 2, 3)"), ("int", "7"),
+        ("Callable[[T], U]", "conv"), ("tuple[T, U]", "(1, 2.5)"), ("S[T, N, B]", "S(1, array(1, 2))"), ("S[int, M, True]", "S(1, array(1, 2))"),
+        ("R[N, T, F, U]", "r0"), ("L @owned", "qubit()"), ("array[L, N] @owned", "array(qubit(), qubit())"), ("tuple[int, T]", "(1, 1)"),
+        ("Callable[[], T]", "mk"), ("array[array[T, N], M]", "array(array(1), array(2))"),
+    ]
+    RETS = ["T", "U", "None", "int", "array[T, N]", "tuple[T, U]", "Callable[[T], U]", "S[T, N, B]", "nat", "L", "tuple[()]", "R[N, T, F, U]"]
+    BAD_ARGS = ["1.5", "True", "qubit()", "(1, 2)", "ENT", "None", "'s'", "array(1, 2)", "a", "comptime(1)", "S", "conv", "[1]", "nat(1)", "zz"]
+
+    def __init__(self, rng):
+        self.rng = rng
+
+    def signature(self):
+        r = self.rng
+        k = r.randrange(1, 6)
+        slots = [r.choice(self.SLOTS) for _ in range(k)]
+        if r.random() < 0.7 and not any("@comptime" in s[0] for s in slots):
+            slots.insert(r.randrange(len(slots) + 1), r.choice(self.SLOTS[3:7]))
+        ret = r.choice(self.RETS)
+        names = [f"p{i}" for i in range(len(slots))]
+        return slots, names, ret
+
+    def entity(self):
+        r = self.rng
+        slots, names, ret = self.signature()
+        params = ", ".join(f"{n}: {s[0]}" for n, s in zip(names, slots))
+        style = r.choice(["declare", "define", "define", "pep695", "comptime", "overload", "method"])
+        only_nat = all("@comptime" not in s[0] or s[0].startswith("nat") for s in slots)
+        if not only_nat and style in ("declare", "overload", "method"):
+            style = "define"  # declarations may only be generic over nat comptime arguments
+        rec = f"return ent({', '.join(names)})"  # a body that checks at every return type
+        if style == "define":
+            src = f"@guppy\ndef ent({params}) -> {ret}:\n    {rec}\n"
+        elif style == "pep695":
+            used = " ".join(s[0] for s in slots) + " " + ret
+            tps = [t for t in ("T", "U", "L") if t in used.replace("L @", "L @").split() or f"[{t}" in used or f"{t}," in used or f" {t}]" in used or used.strip().endswith(t) or f"{t} " in used]
+            tp = ", ".join(dict.fromkeys(["T"] + tps + (["N: nat"] if "N" in used else []) + (["M: nat"] if "M" in used else [])
+                                          + (["B: bool"] if "B]" in used else []) + (["F: float"] if "F," in used else [])))
+            src = (f"@guppy.declare\ndef ent[{tp}]({params}) -> {ret}: ...\n" if only_nat else
+                   f"@guppy\ndef ent[{tp}]({params}) -> {ret}:\n    {rec}\n")
+        elif style == "comptime":
+            src = f"@guppy.comptime\ndef ent({params}) -> {ret}:\n    return None\n"
+        elif style == "overload":
+            s2, n2, r2 = self.signature()
+            p2 = ", ".join(f"{n}: {s[0]}" for n, s in zip(n2, s2))
+            src = (f"@guppy.declare\ndef v1({params}) -> {ret}: ...\n@guppy.declare\ndef v2({p2}) -> {r2}: ...\n"
+                   "@guppy.overload(v1, v2)\ndef ent(): ...\n")
+        elif style == "method":
+            src = (f"@guppy.struct\nclass W(Generic[U, M]):\n    w: U\n    @guppy.declare\n    def meth(self: 'W[U, M]', {params}) -> {ret}: ...\n")
+        else:
+            src = f"@guppy.declare\ndef ent({params}) -> {ret}: ...\n"
+        return src, slots, style
+
+    def misuse(self, slots, style):
+        r = self.rng
+        good = [s[1] for s in slots]
+        ent = "w.meth" if style == "method" else "ent"
+
+        def call(args):
+            return f"{ent}({', '.join(args)})"
+        k = r.randrange(16)
+        if k == 0:
+            a = list(good)
+            if a:
+                del a[r.randrange(len(a))]
+            return f"{call(a)}"
+        if k == 1:
+            a = list(good)
+            a.insert(r.randrange(len(a) + 1), r.choice(self.BAD_ARGS + good))
+            if r.random() < 0.3:
+                a.append("1")
+            return call(a)
+        if k in (2, 3, 4):
+            a = list(good)
+            a[r.randrange(len(a))] = r.choice(self.BAD_ARGS).replace("ENT", ent)
+            return call(a)
+        if k == 5:
+            return r.choice([f"f: int = {ent}", f"f: Callable[[int], int] = {ent}", f"f: Callable[[], None] = {ent}", f"f: array[int, 2] = {ent}",
+                             f"f: S[int, 2, True] = {ent}", f"f: tuple[int, int] = ({ent}, {ent})", f"f: T = {ent}"])
+        if k == 6:
+            return r.choice([f"{ent}[int]", f"{ent}[int, int, int, 3]", f"{ent}[3]", f"{ent}[int]({', '.join(good)})", f"{ent}[T]",
+                             f"{ent}[int, float, qubit, 2, 3, True, 1.5]({', '.join(good)})", f"{ent}[()]", f"{ent}[zz]"])
+        if k == 7:
+            return r.choice([f"apply({ent}, 1)", f"ident({ent})", f"apply({ent}, {ent})", f"apply(ident, {ent})", f"x = ident({ent})\nx(1)",
+                             f"apply(apply, {ent})"])
+        if k == 8:
+            return r.choice([f"{call(good)}(1)", f"{call(good)}.zz", f"{call(good)}[0]", f"x: qubit = {call(good)}", f"return {call(good)}"])
+        if k == 9:
+            return r.choice([f"{ent} + 1", f"-{ent}", f"{ent} == {ent}", f"{ent}.foo", f"{ent}[0]", f"len({ent})", f"for x in {ent}:\n    pass",
+                             f"if {ent}:\n    pass", f"({ent}, 1) + 1", f"array({ent}, 1)", f"x, y = {ent}", f"{ent} = 1", f"not {ent}",
+                             f"{ent} < 1", f"with {ent}:\n    pass", f"int({ent})", f"result('t', {ent})", f"panic({ent})"])
+        if k == 10:
+            a = [("a" if "@comptime" in s[0] else g) for s, g in zip(slots, good)]
+            return call(a)
+        if k == 11:
+            return r.choice(["S(1)", "S(1, array(1, 2), True)", "S[int](1, array(1))", "S[int, 2, True, int](1, array(1, 2))", "s: S[int] = S(1, array(1))",
+                             "s: S[int, 2] = S(1, array(1, 2))", "S(1, array(1, 2)).zz", "S + 1", "s: S[int, True, 2] = S(1, array(1, 2))",
+                             "s: S[2, int, True] = S(1, array(1, 2))", "s: S[int, 2, 1.5] = S(1, array(1, 2))", "r: R[1, int, 2, int] = r0",
+                             "r: R[int, 1, 1.5, int] = r0", "r: R[1, int, 1.5] = r0", "S(1, array(1, 2)).x = 1.5", "s: S[qubit, 2, True] = S(qubit(), array(1, 2))",
+                             "r0.t = r0", "x: int = S", "x: int = r0", "x: int = S(1, array(1, 2))", "apply(S, 1)", "ident(S)(1)", "R(1, 2)", "R(1)",
+                             "R[1, int, 1.5, int](1)", "x: int = R"])
+        if k == 12:
+            a = list(good)
+            r.shuffle(a)
+            return call(a)
+        if k == 13:
+            a = [f"n={g}" if r.random() < 0.5 else g for g in good]
+            return call(a) if a else call(["k=1"])
+        if k == 14:
+            return r.choice([f"def inner(f: Callable[[int], int]) -> None:\n    pass\ninner({ent})",
+                             f"def inner() -> int:\n    return {ent}\ninner()", f"x = [{ent}]", f"x = array(e for e in {ent})",
+                             f"x = {ent} if True else 1", f"x = {ent} and True", f"x = comptime({ent})", f"(lambda: {ent})()"])
+        return call(good) + "\n" + r.choice(["", "zz", f"{ent}()", "return 1"])
+
+    def program(self):
+        r = self.rng
+        ent, slots, style = self.entity()
+        body = self.misuse(slots, style)
+        pre = ("@guppy.declare\ndef conv(x: int) -> float: ...\n@guppy.declare\ndef mk() -> int: ...\n")
+        args = "a: int, r0: R[1, int, 1.5, float]" + (", w: W[int, 2]" if style == "method" else "")
+        main = f"@guppy\ndef main({args}) -> None:\n" + "\n".join("    " + l for l in body.split("\n")) + "\n"
+        if r.random() < 0.15:
+            main = main.replace("@guppy\ndef main", "@guppy.comptime\ndef main")
+        return self.HEAD + pre + ent + main + "main.check()\nmain.compile_function()\n"
